@@ -41,6 +41,7 @@ def check(ctx):
     ctx.guard("C07-C", rule_c)
     ctx.guard("C07-D", rule_d)
     ctx.guard("C07-E", rule_e)
+    ctx.guard("C07-E", rule_e2)
     ctx.rule("C07-F", "a list node's children are its items and nothing else: insert_child never pushes a marker or generated "
              "content into a node kind whose renderer gives every child an item prefix")
     ctx.guard("C07-F", rule_f)
@@ -338,3 +339,18 @@ def rule_f(ctx):
                   "insert_child pushes the marker / generated content of an element with an id into the children of a %s "
                   "node; the renderer treats every child of a %s as an item (it would take a number / bullet and shift "
                   "the following ones)" % (vn, vn))
+
+
+def rule_e2(ctx):
+    """TaggedLine::insert_front is how a prefix reaches a line: on every path it either merges the string into the
+    first piece (insert_str at 0) or inserts a new first piece — there is no path that returns without the text (a
+    blank line inside a quote still carries the quote mark)."""
+    F = ctx.facts
+    b = F.one("TaggedLine::<T>::insert_front")
+    ins = [bb for bb, t in b.calls(lambda cd, t: callee_method(t) in ("insert", "insert_str"))]
+    rets = [x for x in b.reachable() if b.term(x)["k"] == "return"]
+    ctx.check(len(ins) == 2, "C07-E", "insert_front:two-insertion-forms", b.span, b.id, "%d insert/insert_str calls" % len(ins))
+    leak = [r for r in b.reach_from(0, avoid=set(ins)) if r in rets]
+    ctx.check(not leak, "C07-E", "insert_front:no-path-without-the-text", b.span, b.id,
+              "insert_front can return without having inserted the string (e.g. an early return for empty lines): block "
+              "prefixes would be missing on those lines")
